@@ -54,6 +54,9 @@ class OpenLocked:
 
     def __exit__(self, exc_type, exc_value, traceback):
         try:
+            # Everything that was written under the lock must have reached the
+            # file before somebody else can get the lock.
+            self.fd.flush()
             unlockFile(self.fd)
         finally:
             self.fd.close()
